@@ -11,6 +11,7 @@
 // be semantically equal to its rebuilt recipe, pass OK(), and the operation's return value must
 // equal the one obtained on rebuilt, non-aliased operands.
 #include "engine/classes.hh"
+#include "engine/classes_c13x.hh"
 using namespace vf;
 
 static Args ARGS;
@@ -24,6 +25,31 @@ typedef std::vector<POp> PHist;
 
 static std::string pkey(const PHist& h) { std::string s; for (size_t i = 0; i < h.size(); ++i) { char b[64]; snprintf(b, sizeof b, "%d.%d.%d.%d,", h[i].kind, h[i].a, h[i].b, h[i].m); s += b; } return s; }
 static PHist pparse(const std::string& k) { PHist h; std::istringstream is(k); std::string t; while (std::getline(is, t, ',')) { if (t.empty()) continue; POp o; sscanf(t.c_str(), "%d.%d.%d.%d", &o.kind, &o.a, &o.b, &o.m); h.push_back(o); } return h; }
+
+// Twin table (groups 7..): an operation whose name carries the tag "[alias]" (two argument positions bound to
+// ONE object, or an argument that is a reference into the receiver's own storage) or "[recycle]" (a donor
+// system handed to an add_recycled_* / Recycle_Input entry point and then reassigned / destroyed) has a twin of
+// the same name tagged "[copy]" that performs the call on equal, separately built copies / through the
+// non-recycling entry point.  The reference side (rebuilt recipes, expected return value) always executes the
+// twin; twins themselves are not pool operations.
+static std::vector<int> TWIN;
+static bool has_tag(const std::string& n, const char* t) { return n.find(t) != std::string::npos; }
+template <class T> static void compute_twins(const ClassAdapter<T>& A) {
+  TWIN.assign(A.muts.size(), 0);
+  for (size_t i = 0; i < A.muts.size(); ++i) {
+    TWIN[i] = (int)i;
+    const std::string& n = A.muts[i].name;
+    const char* tags[2] = {"[alias]", "[recycle]"};
+    for (int t = 0; t < 2; ++t) {
+      size_t p = n.find(tags[t]); if (p == std::string::npos) continue;
+      std::string tw = n.substr(0, p) + "[copy]" + n.substr(p + strlen(tags[t]));
+      int found = -1; for (size_t j = 0; j < A.muts.size(); ++j) if (A.muts[j].name == tw) found = (int)j;
+      if (found < 0) { fprintf(stderr, "[c13] %s: operation '%s' has no twin '%s'\n", A.name.c_str(), n.c_str(), tw.c_str()); abort(); }
+      TWIN[i] = found;
+    }
+  }
+}
+template <class T> static const Mut<T>& twin_of(const ClassAdapter<T>& A, int m) { return A.muts[(size_t)m < TWIN.size() ? TWIN[m] : m]; }
 
 template <class T> struct RecipeNode;
 template <class T> struct Recipe { std::shared_ptr<const RecipeNode<T> > p; };
@@ -45,7 +71,7 @@ template <class T>
 static T* rbuild(const ClassAdapter<T>& A, const Recipe<T>& r) {
   T* o = A.initials[r.p->initial].second();
   for (size_t i = 0; i < r.p->steps.size(); ++i) {
-    const Mut<T>& m = A.muts[r.p->steps[i].first];
+    const Mut<T>& m = twin_of(A, r.p->steps[i].first);
     std::unique_ptr<T> arg;
     if (m.binary) arg.reset(rbuild(A, r.p->steps[i].second));
     call_mut(m, *o, arg.get());
@@ -121,6 +147,7 @@ template <class T>
 static std::vector<POp> all_ops(const ClassAdapter<T>& A) {
   std::vector<POp> ops;
   for (size_t m = 0; m < A.muts.size(); ++m) {
+    if (has_tag(A.muts[m].name, "[copy]")) continue;       // reference-side twin only
     if (A.muts[m].binary) { for (int a = 0; a < 3; ++a) for (int b = 0; b < 3; ++b) { POp o = {K_MUT, a, b, (int)m}; ops.push_back(o); } }
     else for (int a = 0; a < 3; ++a) { POp o = {K_MUT, a, -1, (int)m}; ops.push_back(o); }
   }
@@ -132,36 +159,63 @@ static std::vector<POp> all_ops(const ClassAdapter<T>& A) {
   return ops;
 }
 
+// adapters of groups 7.. that add operations to a class explored by groups 1-6 are named "<class> (<what>)":
+// the finding site keeps the plain class name
+template <class T> static std::string site_of(const ClassAdapter<T>& A, const POp& o) {
+  return A.name.substr(0, A.name.find(" (")) + "::" + (o.kind == K_MUT ? A.muts[o.m].name.substr(0, A.muts[o.m].name.find('(')) : o.kind == K_ASSIGN ? "operator=" : o.kind == K_COPYCTOR ? "copy-constructor" : "swap");
+}
+template <class T> static bool is_aliased(const ClassAdapter<T>& A, const POp& o) {
+  return (o.kind == K_MUT && ((A.muts[o.m].binary && o.a == o.b) || has_tag(A.muts[o.m].name, "[alias]"))) || ((o.kind == K_ASSIGN || o.kind == K_SWAP) && o.a == o.b);
+}
+template <class T> static std::string trigger_of(const ClassAdapter<T>& A, const POp& o) {
+  if (is_aliased(A, o)) return "aliased";
+  if (o.kind == K_MUT && has_tag(A.muts[o.m].name, "[recycle]")) return "recycled";
+  return "none";
+}
+
 // the oracle for one transition (pool already replayed to the pre-state)
 template <class T>
 static void check_transition(const ClassAdapter<T>& A, PoolState<T>& P, const POp& o, const std::string& inj) {
+  // a slot that the operation neither mutates nor takes as receiver and whose full representation (dump) is
+  // unchanged cannot have changed its value or validity: it was checked when the pre-state was reached
+  std::string pre[3];
+  for (int i = 0; i < 3; ++i) pre[i] = A.dump(*P.slot[i]);
   Recipe<T> ra, rb;
   std::string ret = papply(A, P, o, &ra, &rb);
   count(CNT_TRANS);
   std::string opn = op_text(A, o);
-  std::string site = A.name + "::" + (o.kind == K_MUT ? A.muts[o.m].name.substr(0, A.muts[o.m].name.find('(')) : o.kind == K_ASSIGN ? "operator=" : o.kind == K_COPYCTOR ? "copy-constructor" : "swap");
-  bool aliased = (o.kind == K_MUT && A.muts[o.m].binary && o.a == o.b) || ((o.kind == K_ASSIGN || o.kind == K_SWAP) && o.a == o.b);
-  std::string trig = aliased ? "aliased" : "none";
-  // return value on rebuilt, non-aliased operands
+  std::string site = site_of(A, o);
+  bool aliased = is_aliased(A, o);
+  std::string trig = trigger_of(A, o);
+  // return value on rebuilt, non-aliased operands (the twin operation for [alias] / [recycle] operations);
+  // afterwards `sa' is exactly the object rebuilt from the receiver's new recipe
+  std::unique_ptr<T> sa;
   if (o.kind == K_MUT) {
-    std::unique_ptr<T> sa(rbuild(A, ra));
+    sa.reset(rbuild(A, ra));
     std::unique_ptr<T> sb; if (A.muts[o.m].binary) sb.reset(rbuild(A, rb));
-    std::string want = call_mut(A.muts[o.m], *sa, sb.get());
+    std::string want = call_mut(twin_of(A, o.m), *sa, sb.get());
     // descriptions (constraint/generator lists...) legitimately depend on the representation: only
     // compare atomic answers (Booleans, numbers, exception classes)
     bool atomic = ret.find(' ') == std::string::npos && want.find(' ') == std::string::npos && ret.find(',') == std::string::npos && want.find(',') == std::string::npos;
-    if (atomic && want != ret && violcap().admit(A.name + "|ret|" + A.muts[o.m].name + trig))
+    // a precondition exception that is raised in one lazy state and not in another (Grid::add_constraint with an
+    // inequality throws unless the grid is already MARKED empty) is not a value-semantics matter: the receiver was
+    // not passed through the same const operations as its rebuilt twin.  The values are still compared below.
+    bool precond_only = !aliased && ((ret == "exception:invalid_argument") != (want == "exception:invalid_argument"));
+    if (precond_only) count(CNT_USER + 2);
+    if (atomic && !precond_only && want != ret && violcap().admit(A.name + "|ret|" + A.muts[o.m].name + trig))
       report_violation(site, aliased ? "alias:return!=copy" : "value:return!=rebuilt", trig, inj, ret.substr(0, 300), want.substr(0, 300));
   }
   for (int i = 0; i < 3; ++i) {
+    bool mutated = (i == o.a) || (o.kind == K_SWAP && i == o.b);
+    if (!mutated && A.dump(*P.slot[i]) == pre[i]) { count(CNT_CHECKS); continue; }
     bool okk = false; try { okk = A.ok(*P.slot[i]); } catch (...) {}
-    std::unique_ptr<T> sh(rbuild(A, P.rec[i]));
+    std::unique_ptr<T> sh_own; T* sh;
+    if (o.kind == K_MUT && i == o.a) sh = sa.get(); else { sh_own.reset(rbuild(A, P.rec[i])); sh = sh_own.get(); }
     bool ok_sh = false; try { ok_sh = A.ok(*sh); } catch (...) {}
     if (!okk && ok_sh) { if (violcap().admit(A.name + "|ok|" + site + trig)) report_violation(site, "invariant:OK()-of-slot", trig, inj, "slot " + std::to_string(i) + " OK() false", "OK() true"); continue; }
     bool eq = false; try { eq = A.equal(*P.slot[i], *sh); } catch (...) {}
     count(CNT_CHECKS);
     if (!eq) {
-      bool mutated = (i == o.a) || (o.kind == K_SWAP && i == o.b);
       std::string clause = mutated ? (aliased ? "alias:result!=copy" : "value:result!=rebuilt") : (o.kind == K_MUT && i == o.b ? "const-arg-changed" : "copy-independence:other-slot-changed");
       if (violcap().admit(A.name + "|" + clause + "|" + site + trig))
         report_violation(site, clause, trig, inj, ("slot " + std::to_string(i) + ": " + A.print(*P.slot[i])).substr(0, 400), A.print(*sh).substr(0, 400));
@@ -207,6 +261,7 @@ static void replay_class(const ClassAdapter<T>& A, const int init[3]) {
 
 template <class T>
 static void run_class(const ClassAdapter<T>& A, int depth, const int init[3]) {
+  compute_twins(A);
   if (REPLAY) { replay_class(A, init); return; }
   double t0 = now_s();
   std::vector<POp> ops = all_ops(A);
@@ -262,12 +317,12 @@ static void run_class(const ClassAdapter<T>& A, int depth, const int init[3]) {
         const POp& o = full.back();
         if (++op_crashes[opkey(o)] >= 2) op_blacklist.insert(opkey(o));
         fprintf(stderr, "[c13] bfs: %s died (status %d) at %s\n", A.name.c_str(), st, phist_text(A, init, full).c_str());
-        bool aliased = (o.kind == K_MUT && A.muts[o.m].binary && o.a == o.b) || ((o.kind == K_ASSIGN || o.kind == K_SWAP) && o.a == o.b);
-        if (aliased || o.kind != K_MUT) {
+        bool aliased = is_aliased(A, o);
+        if (aliased || o.kind != K_MUT || trigger_of(A, o) != "none") {
           int sig = WIFSIGNALED(st) ? WTERMSIG(st) : 1000 + WEXITSTATUS(st);
-          std::string site = A.name + "::" + (o.kind == K_MUT ? A.muts[o.m].name.substr(0, A.muts[o.m].name.find('(')) : o.kind == K_ASSIGN ? "operator=" : o.kind == K_COPYCTOR ? "copy-constructor" : "swap");
+          std::string site = site_of(A, o);
           if (violcap().admit(A.name + "|bfscrash|" + site))
-            report_violation(site, std::string("crash:") + signame(sig), aliased ? "aliased" : "none",
+            report_violation(site, std::string("crash:") + signame(sig), trigger_of(A, o),
                              J().str("class", A.name).raw("history", phist_text(A, init, full)).done(), signame(sig), "normal return");
         }
       }
@@ -305,13 +360,13 @@ static void run_class(const ClassAdapter<T>& A, int depth, const int init[3]) {
   Pool::CrashFn cf = [&](long long item, long long sub, int sig, bool confirmed) {
     if (!confirmed || sub < 0) { if (confirmed) count(CNT_USER); return; }
     const POp& o = ops[sub];
-    bool aliased = (o.kind == K_MUT && A.muts[o.m].binary && o.a == o.b) || ((o.kind == K_ASSIGN || o.kind == K_SWAP) && o.a == o.b);
+    bool aliased = is_aliased(A, o);
     PHist full = states[item]; full.push_back(o);
     // a crash of a non-aliased plain operation is another property's business unless copies are involved;
     // it is reported here only for aliased calls and for copy/assign/swap
-    if (!aliased && o.kind == K_MUT) { count(CNT_USER); return; }
-    std::string site = A.name + "::" + (o.kind == K_MUT ? A.muts[o.m].name.substr(0, A.muts[o.m].name.find('(')) : o.kind == K_ASSIGN ? "operator=" : o.kind == K_COPYCTOR ? "copy-constructor" : "swap");
-    report_violation(site, std::string("crash:") + signame(sig), aliased ? "aliased" : "none",
+    if (!aliased && o.kind == K_MUT && trigger_of(A, o) == "none") { count(CNT_USER); return; }
+    std::string site = site_of(A, o);
+    report_violation(site, std::string("crash:") + signame(sig), trigger_of(A, o),
                      J().str("class", A.name).raw("history", phist_text(A, init, full)).done(), signame(sig), "normal return");
   };
   pool().run((long long)states.size(), ARGS.jobs, fn, cf, ARGS, 60);
@@ -357,11 +412,31 @@ int main(int argc, char** argv) {
     run_class(cgsys_adapter(), depth + deeper, is);
     run_class(mip_adapter(), depth, is);
     run_class(pip_adapter(), depth, is); }
+#elif VF_GROUP == 7
+  { const int ix[3] = {7, 8, 1};      // square (both minimized + pending constraint), segment (+ pending generator), triangle
+    run_class(x13::domain_alias_adapter<PPL::C_Polyhedron>("C_Polyhedron (aliased arguments, recycling)"), depth, ix);
+    run_class(x13::domain_alias_adapter<PPL::NNC_Polyhedron>("NNC_Polyhedron (aliased arguments, recycling)"), depth, ix); }
+#elif VF_GROUP == 8
+  { const int ig[3] = {8, 7, 1}; run_class(x13::domain_alias_adapter<PPL::Grid>("Grid (aliased arguments, recycling)"), depth, ig); }
+  run_class(x13::domain_alias_adapter<PPL::Rational_Box>("Rational_Box (aliased arguments, recycling)"), depth, i123);
+  run_class(x13::domain_alias_adapter<PPL::BD_Shape<mpq_class> >("BD_Shape<mpq_class> (aliased arguments, recycling)"), depth, i123);
+  run_class(x13::domain_alias_adapter<PPL::Octagonal_Shape<mpq_class> >("Octagonal_Shape<mpq_class> (aliased arguments, recycling)"), depth, i123);
+#elif VF_GROUP == 9
+  { const int ip[3] = {6, 5, 1};     // three overlapping (omega-reduced), two squares, triangle
+    run_class(x13::powerset_alias_adapter<PPL::C_Polyhedron>("Pointset_Powerset<C_Polyhedron> (aliased arguments, widenings)"), depth, ip);
+    run_class(x13::powerset_full_adapter<PPL::NNC_Polyhedron>("Pointset_Powerset<NNC_Polyhedron>"), depth, ip);
+    run_class(x13::powerset_full_adapter<PPL::Rational_Box>("Pointset_Powerset<Rational_Box>"), depth, ip);
+    run_class(x13::powerset_full_adapter<PPL::Grid>("Pointset_Powerset<Grid>"), depth, ip); }
+#elif VF_GROUP == 10
+  run_class(x13::product_alias_adapter<PPL::Domain_Product<PPL::C_Polyhedron, PPL::Grid>::Constraints_Product>("Constraints_Product<C_Polyhedron,Grid> (aliased arguments, recycling)"), depth, i123);
+  run_class(x13::product_full_adapter<PPL::Domain_Product<PPL::NNC_Polyhedron, PPL::Grid>::Direct_Product>("Direct_Product<NNC_Polyhedron,Grid>"), depth, i123);
+  run_class(x13::product_full_adapter<PPL::Domain_Product<PPL::C_Polyhedron, PPL::Grid>::Congruences_Product>("Congruences_Product<C_Polyhedron,Grid>"), depth, i123);
+  run_class(x13::product_full_adapter<PPL::Domain_Product<PPL::Rational_Box, PPL::Grid>::Shape_Preserving_Product>("Shape_Preserving_Product<Rational_Box,Grid>"), depth, i123);
 #else
 #error "VF_GROUP not set"
 #endif
   if (REPLAY) return REPLAY_RC;
-  J extra; extra.arr("classes", PER_CLASS).num("depth", depth).num("oracle_comparisons", counter(CNT_CHECKS)).num("plain_operation_crashes_skipped", counter(CNT_USER)).num("states_already_inconsistent_skipped", counter(CNT_USER + 1));
+  J extra; extra.arr("classes", PER_CLASS).num("depth", depth).num("oracle_comparisons", counter(CNT_CHECKS)).num("plain_operation_crashes_skipped", counter(CNT_USER)).num("states_already_inconsistent_skipped", counter(CNT_USER + 1)).num("return_comparisons_skipped_precondition_exception_depends_on_lazy_state", counter(CNT_USER + 2));
   J st; st.str("t", "stats").num("states", TOTAL_STATES).num("transitions", TOTAL_TRANS).num("traces_validated_against_impl", TOTAL_TRANS)
     .boolean("exhaustive", ALL_COMPLETE).str("bound", "pool of 3 objects, pool histories of depth " + std::to_string(depth) + " (states to depth-1 deduplicated on the three dumps, every pool operation applied in every state)")
     .arr("samples", SAMPLES).raw("extra", extra.done()).dbl("wall_s", now_s() - t0);
